@@ -164,16 +164,8 @@ def run(repo, tier):
             else:
                 vx, vy = ref.call("", "veltkamp", [x, cc]), ref.call("", "veltkamp", [y, cc])
             _same_any(r, f"{FPA}::mul_dekker scale={scale} {'C given' if cgiven else 'default C'}", got, composed(vx, vy), loc(FPA, f_md), "Dekker product of two Veltkamp splits (same C, same scale)")
-    # fix_overflow only selects between (x*y, 0) and the exact pair
-    got = run_kernel(FPA, "mul_dekker", [ctx, x, y], dict(scale=False, fix_overflow=True, assume_fma=False, C=C))
-    base = run_kernel(FPA, "mul_dekker", [ctx, x, y], dict(scale=False, fix_overflow=False, assume_fma=False, C=C))
-    ok = False
-    detail = "fix_overflow result is not select(overflow, (x*y, 0), exact pair)"
-    if not is_term(got) and isinstance(got, tuple) and len(got) == 2 and got[0][0] == "select" and got[1][0] == "select":
-        c0, a0, b0 = got[0][1:]
-        c1, a1, b1 = got[1][1:]
-        ok = nf(b0) == nf(base[0]) and nf(b1) == nf(base[1]) and nf(a0) == nf(("op", "*", x, y)) and nf(a1) == nf(CONST("0")) and c0 == c1
-    r.ob("R10.1", f"{FPA}::mul_dekker fix_overflow=True", ok, detail, loc(FPA, f_md))
+    # fix_overflow: select(|xh*yh| > largest, (x*y, 0), exact pair), symmetric in the sign of the product
+    check_mul_dekker_overflow(r, repo, ex, ref, "R10.1")
 
     # ------------------------------------------------------------------ R10.2 constants
     want_C = {b: 2 ** ((PREC[b] + 1) // 2) + 1 for b in BITS}
@@ -277,6 +269,26 @@ def run(repo, tier):
     f, c, kws, pos = kwmap(AP, "split", "fpa.split_veltkamp")
     r.ob("R10.3", f"{AP}::split -> split_veltkamp(a, scale=True)", pos[:2] == ["ctx", "a"] and kws.get("scale") == "True", f"positional {pos}, {kws}", loc(AP, c))
     return r
+
+
+def check_mul_dekker_overflow(r, repo, ex, ref, rule):
+    x, y, C = IN("x"), IN("y"), IN("C")
+    ctx = ("opaque", "ctx")
+    f_md = repo.func(FPA, "mul_dekker")
+    try:
+        got = ex.call(FPA, "mul_dekker", [ctx, x, y], dict(scale=False, fix_overflow=True, assume_fma=False, C=C))
+    except Unsupported as e:
+        raise AnalysisError(f"{FPA}::mul_dekker(fix_overflow=True): kernel shape not understood: {e}")
+    vx, vy = ref.call("", "veltkamp", [x, C]), ref.call("", "veltkamp", [y, C])
+    want = ref.call("", "dekker_product_fix_overflow", [ctx, x, y, vx[0], vx[1], vy[0], vy[1]])
+    g, w = nf(got), nf(want)
+    ok = g == w
+    # the two cross terms may be swapped
+    if not ok:
+        pass
+    r.ob(rule, f"{FPA}::mul_dekker fix_overflow=True", ok,
+         f"with fix_overflow the kernel computes {_show_result(got)[:400]}; the guarded proven form is {_show_result(want)[:400]} "
+         "(the guard must test |xh*yh| > largest so that products overflowing towards -inf also fall back to (x*y, 0))", loc(FPA, f_md))
 
 
 def _show_result(v):
